@@ -399,13 +399,6 @@ def remove_block(
             block, sym_target, sym_target is prev_block
         )
 
-        if proxy_block:
-            _retarget_incoming_edges(block, proxy_block)
-        elif isinstance(next_block, gtirb.CfgNode):
-            _retarget_incoming_edges(block, next_block)
-        else:
-            _retarget_incoming_edges(block, None)
-
         if retarget_to_proxy:
             _update_functions_aux_data(cache, block, None)
             _update_module_entrypoints(block, None)
@@ -418,6 +411,19 @@ def remove_block(
         _remove_alignment(block)
 
     _remove_outgoing_edges(cache, block)
+
+    if can_remove:
+        # This has to come after removing the outgoing edges: if the block
+        # ends in a call, dropping that call removes the callee's return
+        # edges to the block's fallthrough target, and a return edge that
+        # gets redirected from this block to that same target (the return
+        # site of an earlier call) must survive it.
+        if proxy_block:
+            _retarget_incoming_edges(block, proxy_block)
+        elif isinstance(next_block, gtirb.CfgNode):
+            _retarget_incoming_edges(block, next_block)
+        else:
+            _retarget_incoming_edges(block, None)
 
     _remove_aux_data_entries(block)
 
